@@ -99,13 +99,14 @@ Receive ==
   /\ UNCHANGED <<scen, order, dur, orphans, pending, preQ, verQ, vfy, lost>>
 
 \* insert_block is an optimistic RocksDB transaction. When the verify (or preload) thread deletes the very same block
-\* - an earlier copy of it failed - while the transaction is open, the commit fails ("Resource busy"); the error
-\* path drops the block's entry from block_status_map (also an INVALID mark just set) and answers Err.
-\* (The transaction is taken to be open from Receive on: a slight over-approximation.)
+\* - an earlier copy of it failed - while the transaction is open, the commit fails ("Resource busy") and the
+\* delivery is answered Err; the INVALID mark set by the other thread stays (fix 9d39564; before it the error path
+\* erased the mark: PreFix). (The transaction is taken to be open from Receive on: a slight over-approximation.)
 Insert ==
   /\ svc.pc = "insert"
   /\ IF svc.conflict
-     THEN /\ status' = status \ {svc.b} /\ replies' = Reply(svc.b, "err") /\ svc' = Idle /\ UNCHANGED stored
+     THEN /\ status' = IF PreFix THEN status \ {svc.b} ELSE status
+          /\ replies' = Reply(svc.b, "err") /\ svc' = Idle /\ UNCHANGED stored
      ELSE /\ stored' = stored \cup {svc.b} /\ svc' = [pc |-> "broker", b |-> svc.b] /\ UNCHANGED <<status, replies>>
   /\ UNCHANGED <<scen, order, rcvd, ext, index, tip, orphans, pending, preQ, verQ, vfy, lost>>
 \* a delete of block b by another thread hits an open insert transaction of the same block
